@@ -177,7 +177,8 @@ class World:
               "log": os.path.join(self.base, f"vp{pid}.log") if self.debug else None}
         p = VProc(self, pid, kind, host, vp, parent=parent, batch=batch, label=label)
         self.procs.append(p)
-        self.ev(e="proc", pid=pid, k=label, host=host, nested=bool(nested), b=self._bnum(batch))
+        self.ev(e="proc", pid=pid, k=label, host=host, nested=bool(nested), b=self._bnum(batch),
+                flags=[x for x in (argv or []) if x.startswith("--")])
         self._next_request(p)
         return p
 
@@ -317,6 +318,16 @@ class World:
     def _watch(self, p):
         """Detect writes of the files whose content is an observable of its own."""
         for d in list(self.watch_dirs):
+            # status files rewritten without the cluster lock (prepare_for_resubmission): still readable by anybody
+            try:
+                sig = tuple(os.stat(os.path.join(d, n)).st_mtime_ns for n in ("cluster_config.json", "job_status.json"))
+            except FileNotFoundError:
+                sig = None
+            if sig is not None and self.seen_files.get(("status", d)) != sig:
+                if not os.path.exists(os.path.join(d, CLUSTER_LOCK)):
+                    self.seen_files[("status", d)] = sig
+                    if not self.fault_mode:
+                        self._snap_status(d, p)
             try:
                 entries = list(os.scandir(d))
             except FileNotFoundError:
@@ -534,8 +545,13 @@ class World:
         if a0 in HOOKS:
             which = HOOKS[a0]
             rc = int(self.scn.get("hook_rc", {}).get(which, 0))
+            hout = env.get("JADE_RUNTIME_OUTPUT", "")
+            live = sum(1 for hd in self.handles.values()
+                       if hd["type"] == "job" and hd["state"] == "running" and hd["owner"] == p.pid)
             self.ev(e="hook", which=which, pid=p.pid, host=p.host, b=self._bnum(p.batch), argv=argv,
-                    out=env.get("JADE_RUNTIME_OUTPUT", ""), grp=env.get("JADE_SUBMISSION_GROUP", ""), rc=rc)
+                    out=hout, envok=os.path.abspath(hout) == os.path.abspath(self.out) if hout else False,
+                    grp=env.get("JADE_SUBMISSION_GROUP", ""), rc=rc, dir=self._dname(hout) if hout else "out",
+                    rows=project.names_with_rows(hout) if hout else [], live=live)
             h = self._newh(type="quick", state="done", rc=rc, owner=p.pid)
             return self._reply(p, h=h, rc=rc, stdout="", stderr="")
         self.ev(e="unknowncmd", pid=p.pid, argv=argv)
@@ -617,6 +633,10 @@ class World:
             self.ev(e="hpc", what="cancel", id=hid, b=b["b"], active=self._active())
         elif b and b["state"] == "RUNNING":
             self.kill_node(hid, how="cancel")
+        else:
+            # as SLURM: a job that already left the queue cannot be cancelled
+            return self._reply(p, h=h, rc=1, stdout="",
+                               stderr=f"scancel: error: Kill job error on job id {hid}: Invalid job id specified")
         return self._reply(p, h=h, rc=0, stdout="", stderr="")
 
     # ------------------------------------------------------------------ HPC moves
@@ -677,7 +697,8 @@ class World:
 
     def _on_exit(self, p, code, exc, tb):
         self._flush(p)
-        self.ev(e="exit", pid=p.pid, k=p.label, host=p.host, code=int(code), exc=exc, b=self._bnum(p.batch))
+        self.ev(e="exit", pid=p.pid, k=p.label, host=p.host, code=int(code), exc=exc, b=self._bnum(p.batch),
+                clock=os.path.exists(os.path.join(self.out, CLUSTER_LOCK)))
         if self.debug and tb:
             print("TB", p.label, tb, file=sys.__stderr__)
         if exc:
